@@ -4,7 +4,6 @@ use crate::{
     CartesianCoordinate, Color, ColorLimits, Error, Point, PointCloud, RecordDataType, RecordName,
     RecordValue, Result, SphericalCoordinate, Transform, Translation,
 };
-use std::collections::VecDeque;
 use std::io::{Read, Seek};
 
 struct Indices {
@@ -38,9 +37,6 @@ pub struct PointCloudReaderSimple<'a, T: Read + Seek> {
     indices: Indices,               // Lookup table for point attriutes to index in raw values
     read: u64,                      // Number of points that were already consumed by the client
     values: Vec<RecordValue>,       // Reusable buffer for a set of raw values for a single point
-    points: VecDeque<Point>,        // Queue with finished points ready for reading
-    buffer: Vec<Point>,             // Reusable buffer for extracting new points
-    error: Option<Error>,           // Error to be returned after the points that were read before it
     intensity_range: Option<Range>, // Intensity range for normalization
     red_range: Option<Range>,       // Red color range for normalization
     green_range: Option<Range>,     // Green color range for normalization
@@ -64,9 +60,6 @@ impl<'a, T: Read + Seek> PointCloudReaderSimple<'a, T> {
             nc: true,
             read: 0,
             values: Vec::with_capacity(pc.prototype.len()),
-            points: VecDeque::new(),
-            buffer: Vec::new(),
-            error: None,
             intensity_range: Range::intensity_from_pointcloud(pc)?,
             red_range: Range::red_from_pointcloud(pc)?,
             green_range: Range::green_from_pointcloud(pc)?,
@@ -360,19 +353,6 @@ impl<T: Read + Seek> Iterator for PointCloudReaderSimple<'_, T> {
             return None;
         }
 
-        // Is there a point available in the output queue?
-        if let Some(point) = self.points.pop_front() {
-            self.read += 1;
-            return Some(Ok(point));
-        }
-
-        // Report a delayed error after all the points in front of it were returned.
-        // The broken point was consumed and counts as read, otherwise the iterator never ends.
-        if let Some(err) = self.error.take() {
-            self.read += 1;
-            return Some(Err(err));
-        }
-
         // Refill queues with raw point values.
         // A single packet might not be enough to complete the next point!
         while self.queue_reader.available() < 1 {
@@ -381,62 +361,28 @@ impl<T: Read + Seek> Iterator for PointCloudReaderSimple<'_, T> {
             }
         }
 
-        // Read raw point values as simple point, add to buffer
-        let available = self.queue_reader.available();
-        self.buffer.reserve(available);
-        for _ in 0..available {
-            match self.pop_point() {
-                Ok(p) => self.buffer.push(p),
-                Err(err) => {
-                    // The points in front of the broken point are still valid and must be returned first
-                    self.error = Some(err);
-                    break;
-                }
-            };
-        }
-
-        // Post-processing of the points in the buffer
+        // Every point is converted when it is handed out, with the options that are set at that moment.
+        // A point that cannot be converted is consumed and counts as read, the iteration goes on behind it.
+        self.read += 1;
+        let mut point = match self.pop_point() {
+            Ok(point) => point,
+            Err(err) => return Some(Err(err)),
+        };
         if self.s2c {
-            for p in self.buffer.iter_mut() {
-                convert_to_cartesian(p);
-            }
+            convert_to_cartesian(&mut point);
         }
         if self.c2s {
-            for p in self.buffer.iter_mut() {
-                convert_to_spherical(p);
-            }
+            convert_to_spherical(&mut point);
         }
         if self.i2c {
-            for p in self.buffer.iter_mut() {
-                convert_intensity(p);
-            }
+            convert_intensity(&mut point);
         }
         // Without a pose there is nothing to apply, the identity matrix would still
         // turn infinite coordinates into NaN values and change the sign of zeros.
         if self.transform && self.pc.transform.is_some() {
-            for p in self.buffer.iter_mut() {
-                transform_point(p, &self.rotation, &self.translation);
-            }
+            transform_point(&mut point, &self.rotation, &self.translation);
         }
-
-        // Move points from buffer to output queue
-        self.points.reserve(self.buffer.len());
-        for p in self.buffer.drain(..) {
-            self.points.push_back(p);
-        }
-
-        // Get and return one of the new points
-        if let Some(point) = self.points.pop_front() {
-            self.read += 1;
-            Some(Ok(point))
-        } else if let Some(err) = self.error.take() {
-            self.read += 1;
-            Some(Err(err))
-        } else {
-            Some(Error::internal(
-                "Cannot read next point because of logic error",
-            ))
-        }
+        Some(Ok(point))
     }
 
     fn size_hint(&self) -> (usize, Option<usize>) {
